@@ -66,6 +66,8 @@ for n in names:
                     pass
             if p.returncode == 1 and line:
                 v = "CAUGHT (no-failing-input-found)" if "no-failing-input" in line else "CAUGHT (failing input)"
+            elif meta.get("obsolete") and p.returncode == 0:
+                v = "NO ALARM (correct: the change is harmless on the current tree, see meta.json)"
             else:
                 v = "MISSED rc=%d" % p.returncode
             verdicts.append({"check": c, "verdict": v, "summary": last, "replay_head": replay})
